@@ -148,5 +148,135 @@ Definition list_limit_of (r : request) : option Z :=
 Definition watch_cancel_responses (pure_watch client_cancelled : bool) : N :=
   (if client_cancelled then 1 else 0) + (if pure_watch then 1 else 0).
 
+(* ---------- explicit partial operations on request data ----------
+   Where the real handlers index, slice or size something with values that come from the request, the
+   operation is modelled as partial: it yields PPanic exactly where Go panics (index out of range, slice
+   bounds out of range, makeslice: cap out of range). *)
+Inductive pres (A : Type) := PVal (a : A) | PPanic.
+Arguments PVal {A} a.
+Arguments PPanic {A}.
+
+Definition pbind {A B} (x : pres A) (f : A -> pres B) : pres B :=
+  match x with PVal a => f a | PPanic => PPanic end.
+
+(* xs[i] *)
+Definition index {A} (xs : list A) (i : nat) : pres A :=
+  match nth_error xs i with Some a => PVal a | None => PPanic end.
+
+(* Go's a && b: b is evaluated only if a is true *)
+Definition pand (a : pres bool) (b : pres bool) : pres bool :=
+  match a with PVal true => b | PVal false => PVal false | PPanic => PPanic end.
+Definition plen_is {A} (xs : list A) (n : nat) : pres bool := PVal (Nat.eqb (length xs) n).
+Definition pon {A} (x : pres A) (f : A -> bool) : pres bool := pbind x (fun a => PVal (f a)).
+
+(* kv.go isCreate: len(Compare)==1 && Compare[0].Target==MOD && Compare[0].Result==EQUAL &&
+   Compare[0].GetModRevision()==0 && len(Failure)==0 && len(Success)==1 && Success[0].GetRequestPut()!=nil *)
+Definition is_create_p (cmp : list compare) (succ fail : list opkind) : pres bool :=
+  pand (plen_is cmp 1)
+  (pand (pon (index cmp 0) (fun c => is_mod_equal c && (c_modrev c =? 0)%Z))
+  (pand (plen_is fail 0)
+  (pand (plen_is succ 1)
+        (pon (index succ 0) is_put)))).
+
+(* kv.go isDelete, first form: no compare, no failure, Success = [range; delete-range] *)
+Definition is_delete1_p (cmp : list compare) (succ fail : list opkind) : pres bool :=
+  pand (plen_is cmp 0)
+  (pand (plen_is fail 0)
+  (pand (plen_is succ 2)
+  (pand (pon (index succ 0) is_range)
+        (pon (index succ 1) is_delrange)))).
+(* second form: one MOD/EQUAL compare, Failure = [range], Success = [delete-range] *)
+Definition is_delete2_p (cmp : list compare) (succ fail : list opkind) : pres bool :=
+  pand (plen_is cmp 1)
+  (pand (pon (index cmp 0) is_mod_equal)
+  (pand (plen_is fail 1)
+  (pand (pon (index fail 0) is_range)
+  (pand (plen_is succ 1)
+        (pon (index succ 0) is_delrange))))).
+(* kv.go isUpdate *)
+Definition is_update_p (cmp : list compare) (succ fail : list opkind) : pres bool :=
+  pand (plen_is cmp 1)
+  (pand (pon (index cmp 0) is_mod_equal)
+  (pand (plen_is succ 1)
+  (pand (pon (index succ 0) is_put)
+  (pand (plen_is fail 1)
+        (pon (index fail 0) is_range))))).
+(* kv.go isCompact *)
+Definition is_compact_p (cmp : list compare) (succ fail : list opkind) : pres bool :=
+  pand (plen_is cmp 1)
+  (pand (pon (index cmp 0) is_version_equal)
+  (pand (plen_is succ 1)
+  (pand (pon (index succ 0) is_put)
+  (pand (plen_is fail 1)
+  (pand (pon (index fail 0) is_range)
+        (pon (index cmp 0) (fun c => beqb (c_key c) compact_rev_key))))))).
+
+(* RPCServer.Txn tries them in this order; the create branch then uses Success[0] *)
+Definition txn_shape_p (cmp : list compare) (succ fail : list opkind) : pres txn_shape :=
+  pbind (is_create_p cmp succ fail) (fun c =>
+    if c then pbind (index succ 0) (fun p => PVal (TCreate p)) else
+  pbind (is_delete1_p cmp succ fail) (fun d1 =>
+    if d1 then PVal TDelete else
+  pbind (is_delete2_p cmp succ fail) (fun d2 =>
+    if d2 then PVal TDelete else
+  pbind (is_update_p cmp succ fail) (fun u =>
+    if u then PVal TUpdate else
+  pbind (is_compact_p cmp succ fail) (fun k =>
+    PVal (if k then TCompact else TInvalid)))))).
+
+(* the same recognisers with the length tests left out: what the guards are for *)
+Definition is_create_unguarded (cmp : list compare) : pres bool :=
+  pon (index cmp 0) (fun c => is_mod_equal c && (c_modrev c =? 0)%Z).
+
+(* make([]T, 0, n) *)
+Definition max_cap : Z := 35184372088832.      (* 2^45 elements of 8 bytes: beyond that makeslice refuses on amd64 *)
+Definition make_cap (n : Z) : pres Z :=
+  if ((0 <=? n) && (n <=? max_cap))%Z then PVal n else PPanic.
+(* xs[0:n] for a slice of length len *)
+Definition slice_to (len n : Z) : pres Z :=
+  if ((0 <=? n) && (n <=? len))%Z then PVal n else PPanic.
+
+(* backend.List + scanner.Range + the response cut, for a directory with [found] matching keys:
+     limit' := limit (+1 with int64 wrap-around if limit > 0)
+     limit' > 0 : rangeWithLimit: receiver{limit: int(limit')}, reset() = make(.., 0, len(previous result)),
+                  the scan stops after limit' results
+     otherwise  : unlimited scan, receivers forked with make(.., 0, c.limit) where c.limit = 0
+     then `if limit' > 0 && len(kvs) > int(r.Limit) { More = true; kvs = kvs[0:r.Limit] }`
+   result: number of kvs returned and More *)
+Definition list_exec (limit : Z) (found : Z) : pres (Z * bool) :=
+  match list_limit limit with
+  | Limited l' =>
+      pbind (make_cap 0) (fun _ =>                       (* reset() on the first attempt *)
+      let got := Z.min found l' in
+      if (got >? limit)%Z
+      then pbind (slice_to got limit) (fun n => PVal (n, true))
+      else PVal (got, false))
+  | Unlimited =>
+      pbind (make_cap 0) (fun _ => PVal (found, false))   (* fork(): make(.., 0, 0) *)
+  end.
+
+(* the seeded variant of reset(): the buffer pre-sized from the limit *)
+Definition list_exec_presized (limit : Z) (found : Z) : pres (Z * bool) :=
+  match list_limit limit with
+  | Limited l' => pbind (make_cap l') (fun _ => PVal (Z.min found l', false))
+  | Unlimited => PVal (found, false)
+  end.
+
 (* backend.Update called directly with a nil Kv panics: the guard in the handler is what prevents it *)
 Definition handle_unguarded_update (kvp : bool) : hres := backend_update kvp.
+
+(* [handle] with the transaction recognised by explicit indexing: an index out of range is HPanic *)
+Definition handle_p (r : request) : hres :=
+  match r with
+  | ETxn cmp succ fail =>
+      match txn_shape_p cmp succ fail with
+      | PPanic => HPanic
+      | PVal (TCreate (OpPut il iv pk)) => if il || iv || pk then HReject else HRun 1
+      | PVal (TCreate _) => HPanic
+      | PVal TDelete => HRun 1
+      | PVal TUpdate => backend_update true
+      | PVal TCompact => HRun 0
+      | PVal TInvalid => HReject
+      end
+  | _ => handle r
+  end.
